@@ -214,6 +214,9 @@ def run(ctx, R, tier):
     lifecycle_readers(F, R)
     resume_is_immediate(F, R)
     finite_length(F, R)
+    # fades, start delays and the resume countdown advance by the time of the slice the sound is handed: it is this chunk's slice
+    from .c02 import ibs
+    ibs(F, R)
     # a clock start time becomes Immediate exactly when the clock says Now (the C05 rule)
     from .c05 import start_time_rule
     start_time_rule(F, R)
@@ -296,6 +299,8 @@ def run(ctx, R, tier):
                         sat = True
                     if kind == 'immediate' and 'PartialEq' in desc and '::eq(' in desc and 'StartTime::Immediate' in desc and bl is True:
                         sat = True
+                    if kind == 'immediate' and 'PartialEq' in desc and '::ne(' in desc and 'StartTime::Immediate' in desc and bl is False:
+                        sat = True          # `if *start_time != StartTime::Immediate { return false }`, not taken
                     if kind == 'immediate' and desc.startswith('discr(') and desc.endswith('.start_time)') and lab == 'Immediate':
                         sat = True          # `matches!(start_time, StartTime::Immediate)`
                 if not sat:
@@ -700,6 +705,14 @@ def sound_rules(F, R):
         d = list(rets)[0] if rets else '?'
         rhs = describe_eq_rhs(b)
         ok = ('sound::PlaybackState' in d and '::eq' in d) and 'Stopped' in rhs
+        if not ok and len(prs) >= 2:
+            # `matches!(self.playback_state_manager.playback_state(), PlaybackState::Stopped)`: true on the Stopped arm only
+            def arm(p):
+                ds = [(desc, lab) for _, desc, lab in p.decisions]
+                return ds[0] if len(ds) == 1 and ds[0][0].startswith('discr(') and 'PlaybackStateManager::playback_state(' in ds[0][0] else None
+            arms = [(arm(p), str(p.ret)) for p in prs]
+            ok = all(a is not None and r in ('True', 'False') and (r == 'True') == (a[1] == 'Stopped') for a, r in arms) \
+                and any(r == 'True' for _, r in arms)
         R.check(ok, 'B.C03.unload', tag + ':finished', 'finished() is %s, not `playback_state() == Stopped`' % d,
                 detail={'finished': d, 'rhs': describe_eq_rhs(b)}, where=b.file)
     for owner in ('track::sub::Track', 'track::main::MainTrack'):
